@@ -133,11 +133,15 @@ impl<'a> ser::Serializer for &'a mut SizeSerializer {
                 IsArrayElement::FirstElement => Ok(9),
                 IsArrayElement::OtherElement => Ok(8),
             },
-            Some(NonNativeType::Timestamp) => match self.is_array_element {
-                IsArrayElement::False => Ok(9),
-                IsArrayElement::FirstElement => Ok(9),
-                IsArrayElement::OtherElement => Ok(8),
-            },
+            Some(NonNativeType::Timestamp) => {
+                // The marker applies to this value only
+                self.non_native_type = None;
+                match self.is_array_element {
+                    IsArrayElement::False => Ok(9),
+                    IsArrayElement::FirstElement => Ok(9),
+                    IsArrayElement::OtherElement => Ok(8),
+                }
+            }
             _ => unreachable!("serialize_i64 is only used for Long and Timestamp"),
         }
     }
@@ -229,12 +233,14 @@ impl<'a> ser::Serializer for &'a mut SizeSerializer {
             },
             IsArrayElement::FirstElement => match self.non_native_type {
                 Some(NonNativeType::Symbol) | Some(NonNativeType::SymbolRef) | None => {
+                    self.non_native_type = None;
                     Ok(5 + v.len())
                 }
                 _ => unreachable!("serialize_str is only used for Symbol and String"),
             },
             IsArrayElement::OtherElement => match self.non_native_type {
                 Some(NonNativeType::Symbol) | Some(NonNativeType::SymbolRef) | None => {
+                    self.non_native_type = None;
                     Ok(4 + v.len())
                 }
                 _ => unreachable!("serialize_str is only used for Symbol and String"),
@@ -483,7 +489,8 @@ impl ser::SerializeSeq for SeqSerializer<'_> {
     }
 
     fn end(self) -> Result<usize, Error> {
-        match self.se.seq_type {
+        // The marker applies to this sequence only
+        match self.se.seq_type.take() {
             None | Some(SequenceType::List) => {
                 list_size(self.cumulated_size, &self.se.is_array_element)
                     .map_err(|_| Error::too_long())
